@@ -33,7 +33,7 @@ func drawConcPlan(ch *core.Chooser, env *Env, fileMode int, maxTasks int, kinds 
 
 	// request pool: small, so that tasks collide on the same indices; some
 	// entries differ from their predecessor in exactly one client field
-	opKinds := []int{workload.OpDNS, workload.OpDNS, workload.OpDNS, workload.OpWeb, workload.OpMatchAll, workload.OpMatchAll, workload.OpMatch, workload.OpCosmetic}
+	opKinds := []int{workload.OpDNS, workload.OpDNS, workload.OpDNS, workload.OpWeb, workload.OpWeb, workload.OpMatchAll, workload.OpMatchAll, workload.OpMatch, workload.OpCosmetic}
 	for i := 0; i < 12; i++ {
 		if i == 0 {
 			ch.Begin("req")
@@ -42,6 +42,8 @@ func drawConcPlan(ch *core.Chooser, env *Env, fileMode int, maxTasks int, kinds 
 		}
 		if i > 0 && (p.pool[i-1].Kind == workload.OpDNS || p.pool[i-1].HostnameReq) && ch.Intn("pool.mutate", 3) == 2 {
 			p.pool = append(p.pool, workload.MutateOneField(ch, p.pool[i-1]))
+		} else if i > 0 && p.pool[i-1].Kind == workload.OpWeb && ch.Intn("pool.mutate", 3) == 2 {
+			p.pool = append(p.pool, workload.MutateWebOp(ch, p.pool[i-1]))
 		} else {
 			p.pool = append(p.pool, workload.GenOp(ch, p.hosts, opKinds))
 		}
